@@ -166,11 +166,11 @@ Section Main.
       try (apply Hplain; [congruence | congruence | congruence | congruence | exact Hl | reflexivity]).
     - (* count_values *)
       cbn [wf_agg] in Hwa. destruct p as [[| dst | | | | | | | |]|]; try discriminate.
-      apply negb_true_iff in Hwa. apply String.eqb_neq in Hwa.
       apply andb_true_iff in Hl. destruct Hl as [Hl _]. rewrite forallb_forall in Hl.
       split; cbn [walk_node].
       + intros s Hin. apply in_map_iff in Hin. destruct Hin as [s0 [<- _]]. unfold ret_ok. rewrite agg_src_ret. reflexivity.
-      + intros x Hx. specialize (Hl x Hx). apply andb_true_iff in Hl. destruct Hl as [_ Hl].
+      + intros x Hx. specialize (Hl x Hx). apply andb_true_iff in Hl. destruct Hl as [Hkeep Hl].
+        apply eqb_prop in Hkeep.
         apply mem_ls_spec in Hl. destruct Hl as [y [Hy He]].
         apply in_map_iff in Hy. destruct Hy as [z [<- Hz]]. destruct (I2 z Hz) as [s [Hin HC]].
         exists (agg_src ACountValues w g (Some (EStr dst)) s). split; [apply in_map; exact Hin|].
